@@ -69,7 +69,7 @@ def header_raises(c):
 # ======================================================================================================
 # parse_trailers
 # ======================================================================================================
-@contract("gunicorn.http.body:ChunkedReader.parse_trailers", props=("C01", "C06", "C12"))
+@contract("gunicorn.http.body:ChunkedReader.parse_trailers", props=("C01", "C06", "C07", "C12"))
 class ParseTrailers(Contract):
     def cases(self, env):
         st = base_state(env)
